@@ -27,7 +27,9 @@ fn digest(b: &[u8]) -> String { let mut h: u64 = 1469598103934665603; for x in b
 
 async fn echo(k: String, req: &Request) -> String {
     let hs = vec![format!("{:?}", req.headers)];
-    format!("k={k};m={};path={};q={:?};h=[{}];p={};ctx={}", req.method, req.path.str(), req.query.iter().collect::<Vec<_>>(), hs.join("|"),
+    // typed reading of the query as well: the iterator skips parts without `=`
+    let qt = match req.query.parse::<std::collections::BTreeMap<String, String>>() { Ok(m) => format!("{m:?}"), Err(_) => "err".into() };
+    format!("k={k};m={};path={};q={:?};qt={qt};h=[{}];p={};ctx={}", req.method, req.path.str(), req.query.iter().collect::<Vec<_>>(), hs.join("|"),
             req.payload().map(digest).unwrap_or("none".into()), req.context.get::<Marker>().map(|m| m.0.clone()).unwrap_or("none".into()))
 }
 
@@ -42,7 +44,9 @@ pub struct Conc { pub bytes: Vec<u8>, pub body: Vec<u8> }
 pub fn concretise(k: usize, r: &Value, seed: u64) -> Conc {
     let (h, b) = (i(&r["h"]) as usize, i(&r["b"]) as usize);
     let bad = r["bad"].as_bool().unwrap_or(false);
-    let mut head = format!("{} /r/{k}?s={seed} HTTP/1.1\r\nHost: h{k}.example\r\nX-Req: {k}\r\n", if b == 0 { "GET" } else { "POST" });
+    // every third request carries no query (whatever an earlier one carried must not show through)
+    let query = if (k as u64 + seed) % 3 == 0 { String::new() } else { format!("?s={seed}&k{k}=v{k}") };
+    let mut head = format!("{} /r/{k}{query} HTTP/1.1\r\nHost: h{k}.example\r\nX-Req: {k}\r\n", if b == 0 { "GET" } else { "POST" });
     // a request the parser refuses after it has accepted some header lines (which must not leak into the next request)
     if bad { head.push_str(&format!("Authorization: Bearer secret-of-{k}\r\nX-Mark: bad{k}\r\nX-Leak: leak{k}\r\nCookie: sid=bad{k}\r\nthis line has no colon\r\n")) }
     if r["many"].as_bool().unwrap_or(false) && !bad { for j in 0..5 { head.push_str(&format!("X-M{j}: v{k}-{j}\r\n")) } }
